@@ -227,7 +227,11 @@ def chunkify_post(prop):
                 res.oblige(p, f'{prop}.chunkify.no_key_only_when_unencrypted', z3.Not(view.encrypted))
             else:
                 # C07.chunker.family_key: boundaries depend on the content and the FAMILY's key only
-                res.oblige(p, f'{prop}.chunkify.family_chunker_key', z3.And(view.encrypted, sym.lift(prm, BYTES).z == view.chunker_params))
+                if isinstance(prm, SV) and isinstance(prm.ty, Opt):
+                    zprm, some = prm.ty.val(prm.z), z3.Not(prm.ty.is_none(prm.z))
+                else:
+                    zprm, some = sym.lift(prm, BYTES).z, z3.BoolVal(True)
+                res.oblige(p, f'{prop}.chunkify.family_chunker_key', z3.And(view.encrypted, some, zprm == view.chunker_params))
     return post
 
 
